@@ -14,7 +14,12 @@ pub fn payload(id: LogId, class: u8) -> String {
         c => {
             // 2: larger than the 1 KiB read block is not needed for the record
             // scan (300 bytes); 3: two of them straddle any 64 KiB block
-            let n = if c == 3 { 40_000 } else { 300 };
+            // 4: one record larger than 64 KiB
+            let n = match c {
+                3 => 40_000,
+                4 => 70_000,
+                _ => 300,
+            };
             let unit = format!("<{}:{}>", id.0, id.1);
             let mut s = String::with_capacity(n + 16);
             while s.len() < n {
